@@ -16,6 +16,7 @@ quantify over all scripts; the driver instantiates them with the scripted test
 interface of the harness.
 -/
 import VarlinkVerif.Model.Json
+import VarlinkVerif.Model.Framing
 
 namespace VV
 
@@ -253,28 +254,6 @@ def serve (c : Consts) (svc : Service) : List Frame → Outcome
         { groups := res.out :: o.groups, status := o.status, consumed := o.consumed + 1 }
 
 /-! ### byte level: NUL framing over a buffered reader -/
-
-abbrev Bytes := List UInt8
-
-/-- split at the first NUL: `(before, after)` -/
-def splitNul : Bytes → Option (Bytes × Bytes)
-  | [] => none
-  | b :: bs =>
-    if b = 0 then some ([], bs)
-    else match splitNul bs with
-      | some (pre, post) => some (b :: pre, post)
-      | none => none
-
-/-- all complete NUL-terminated messages of a stream, and the bytes after the
-    last NUL -/
-def frames : Bytes → List Bytes × Bytes
-  | [] => ([], [])
-  | b :: bs =>
-    let (ms, t) := frames bs
-    if b = 0 then ([] :: ms, t)
-    else match ms with
-      | [] => ([], b :: t)
-      | m :: ms' => ((b :: m) :: ms', t)
 
 /-- The inner `BufReader` of `handle`: `buf` is what it holds unconsumed,
     `reads` is the sequence of results of the successive `read` calls the
